@@ -1,7 +1,9 @@
 """C02 — time-reversed solver output generates the target (narrow structural claim, DESIGN §5.2)."""
 from __future__ import annotations
 
-from ..core import AnalysisError, call_attr, calls_in, func_params, short
+import ast
+
+from ..core import AnalysisError, call_attr, call_name, calls_in, func_params, norm, short
 from ..driver import Knockout, sub_nth, sub_once
 from ..report import Ctx
 from ..rules import mirror, solvers, tables
@@ -24,7 +26,127 @@ EXPLANATION = (
     "the state in either backend, or outcome independence.")
 
 
+def rule_index_space(ctx: Ctx) -> None:
+    """index.space: the solver uses two index spaces for emitters — the emitter's register number e (0 .. n_emitter-1: circuit operations,
+    register names) and its position n_photon + e in the tableau (gates on the tableau, `_add_one_qubit_gate`, which splits at n_photon
+    itself).  The space of every method parameter is inferred from its uses (offset added -> register number; handed to a tableau gate,
+    compared with / reduced by n_photon -> position; handed on to a parameter whose space is known -> that space), to a fixpoint over the
+    methods of the class.  A parameter with evidence for both spaces is a call that forgot (or doubled) the offset."""
+    repo = ctx.repo
+    m = repo.module(TRS)
+    ci = repo.cls("TimeReversedSolver", TRS)
+    methods = ci.methods()
+    ev = {}   # (method, param) -> {"E": [(node, why)], "T": [...]}
+
+    def add(meth, p, sp, node, why):
+        d = ev.setdefault((meth, p), {"E": [], "T": []})
+        if not any(n_ is node for n_, _ in d[sp]):
+            d[sp].append((node, why))
+            return True
+        return False
+
+    def is_np(e):
+        return norm(e) in ("self.n_photon", "n_photon")
+    def aliases(fn):
+        """local names that are plain copies of a parameter (`target_emitter = emitter_index`) stand for that parameter"""
+        ps0 = set(func_params(fn)[1:])
+        al = {p_: p_ for p_ in ps0}
+        binds = {}
+        for a in ast.walk(fn):
+            if isinstance(a, ast.Assign) and len(a.targets) == 1 and isinstance(a.targets[0], ast.Name):
+                binds.setdefault(a.targets[0].id, []).append(a.value)
+        for k, vs in binds.items():
+            if k not in ps0 and len(vs) == 1 and isinstance(vs[0], ast.Name) and vs[0].id in ps0:
+                al[k] = vs[0].id
+            elif k not in ps0 and len(vs) == 1:
+                al[k] = k          # a local bound once is typed like a parameter (it cannot change space between uses)
+        for lp in ast.walk(fn):
+            if isinstance(lp, ast.For) and isinstance(lp.target, ast.Name) and lp.target.id not in al and lp.target.id not in binds:
+                al[lp.target.id] = lp.target.id
+        return al
+
+    class _PS:
+        """membership / lookup through the alias map"""
+        def __init__(self, al):
+            self.al = al
+
+        def __contains__(self, k):
+            return k in self.al
+
+        def of(self, k):
+            return self.al[k]
+    for name, fn in methods.items():
+        ps = _PS(aliases(fn))
+        for x in ast.walk(fn):
+            if isinstance(x, ast.BinOp) and isinstance(x.op, ast.Add):
+                for a_, b_ in ((x.left, x.right), (x.right, x.left)):
+                    if is_np(a_) and isinstance(b_, ast.Name) and b_.id in ps:
+                        add(name, ps.of(b_.id), "E", x, f"`{short(x)}` adds the photon offset")
+            if isinstance(x, ast.BinOp) and isinstance(x.op, ast.Sub) and is_np(x.right) and isinstance(x.left, ast.Name) and x.left.id in ps:
+                add(name, ps.of(x.left.id), "T", x, f"`{short(x)}` removes the photon offset")
+            if isinstance(x, ast.Compare) and len(x.ops) == 1 and isinstance(x.ops[0], (ast.Lt, ast.LtE, ast.Gt, ast.GtE)):
+                for a_, b_ in ((x.left, x.comparators[0]), (x.comparators[0], x.left)):
+                    if is_np(a_) and isinstance(b_, ast.Name) and b_.id in ps:
+                        add(name, ps.of(b_.id), "T", x, f"`{short(x)}` compares it with the number of photons")
+            if isinstance(x, ast.Call) and (call_name(x) or "").startswith("transform.") and call_attr(x).endswith("_gate"):
+                for a_ in x.args[1:]:
+                    if isinstance(a_, ast.Name) and a_.id in ps:
+                        add(name, ps.of(a_.id), "T", x, f"`{short(x, 60)}` uses it as a tableau position")
+            if isinstance(x, ast.JoinedStr):
+                vals = x.values
+                for i, v in enumerate(vals):
+                    if isinstance(v, ast.FormattedValue) and isinstance(v.value, ast.Name) and v.value.id in ps and i > 0 and isinstance(vals[i - 1], ast.Constant) \
+                            and str(vals[i - 1].value).endswith("e"):
+                        add(name, ps.of(v.value.id), "E", x, f"`{short(x)}` names the emitter register")
+            if isinstance(x, ast.Call) and (call_name(x) or "").startswith("ops."):
+                kws = {k.arg: k.value for k in x.keywords}
+                for reg_kw, type_kw in (("register", "reg_type"), ("control", "control_type"), ("target", "target_type")):
+                    if isinstance(kws.get(reg_kw), ast.Name) and kws[reg_kw].id in ps and isinstance(kws.get(type_kw), ast.Constant) and kws[type_kw].value == "e":
+                        add(name, ps.of(kws[reg_kw].id), "E", x, f"`{short(x, 60)}` uses it as an emitter register number")
+    changed = True
+    rounds = 0
+    while changed and rounds < 6:
+        changed = False
+        rounds += 1
+        for name, fn in methods.items():
+            ps = _PS(aliases(fn))
+            for c in calls_in(fn):
+                if not ((call_name(c) or "").startswith("self.") and call_attr(c) in methods):
+                    continue
+                callee = call_attr(c)
+                cps = func_params(methods[callee])[1:]
+                bound = list(zip(cps, c.args)) + [(k.arg, k.value) for k in c.keywords if k.arg in cps]
+                for cp, a_ in bound:
+                    d = ev.get((callee, cp))
+                    if not d:
+                        continue
+                    spaces = [sp for sp in ("E", "T") if d[sp]]
+                    if len(spaces) != 1:
+                        continue
+                    sp = spaces[0]
+                    if isinstance(a_, ast.Name) and a_.id in ps:
+                        if add(name, ps.of(a_.id), sp, c, f"`{short(c, 70)}` hands it to `{cp}` of {callee}, a {'register number' if sp == 'E' else 'tableau position'}"):
+                            changed = True
+    conflicts = [(k, d) for k, d in ev.items() if d["E"] and d["T"]]
+    n_typed = sum(1 for d in ev.values() if d["E"] or d["T"])
+    if n_typed < 8:
+        raise AnalysisError(f"index.space: only {n_typed} parameters could be given an index space (anchor moved or idiom no longer recognised)")
+    ctx.touch(m)
+    if not conflicts:
+        ctx.ok("index.space", m, ci.node, what=f"{n_typed} parameters typed as emitter register number or tableau position, no parameter used as both")
+    for (meth, p_), d in conflicts:
+        # report at the propagated evidence (a call), which is where the offset is missing / doubled
+        prop_ = [x for x in d["E"] + d["T"] if isinstance(x[0], ast.Call) and (call_name(x[0]) or "").startswith("self.")]
+        node, why = (prop_[-1] if prop_ else d["T"][0])
+        e_why, t_why = d["E"][0][1], d["T"][0][1]
+        ctx.fail("index.space", m, node,
+                 f"TimeReversedSolver.{meth}: `{p_}` is used as an emitter register number ({e_why}) and as a tableau position ({t_why}); the emitter e sits at "
+                 f"position n_photon + e of the tableau, so one of the two uses addresses a photon (or a position beyond the tableau)",
+                 func=f"TimeReversedSolver.{meth}", construct=f"{meth}: `{p_}` in both index spaces")
+
+
 def run(ctx: Ctx) -> None:
+    rule_index_space(ctx)
     from ..rules import echelon as _echelon
     _echelon.arm(ctx)
     from .c11 import rule_inverse_blocks, rule_block_conditions
@@ -136,6 +258,7 @@ def rule_target_shared(ctx: Ctx) -> None:
 
 
 KNOCKOUTS = [
+    Knockout("sign-repair-without-photon-offset", TRS, sub_nth("            transform.x_gate(tableau, self.n_photon + emitter_index)\n", "            transform.x_gate(tableau, emitter_index)\n", 0), "index.space", "both index spaces"),
     Knockout("one-qubit-gate-split-strict", TRS, sub_once("        if index >= self.n_photon:\n            reg_type = \"e\"", "        if index > self.n_photon:\n            reg_type = \"e\""), "index.split", "position n_photon"),
     Knockout("one-qubit-gate-emitter-register-sign", TRS, sub_once("            reg = index - self.n_photon\n", "            reg = self.n_photon - index\n"), "index.split", "register is"),
     Knockout("target-converted-on-a-copy", TRS, sub_once("            target.convert_representation(\"s\")\n", "            target = target.copy()\n            target.convert_representation(\"s\")\n            self.target = target\n"), "target.shared", "copy of the target"),
